@@ -116,5 +116,10 @@ def _conv(n, func, this):
             p = func["params"][int(name[8:])]
             return T.var("strlen(%s)" % p["n"], "u")
         if name[0].isupper():
+            ctx = _CTX.get("ctx")
+            if ctx is not None and name in ctx.nttp_map:
+                return ctx.nttp_map[name]
+            if ctx is not None and name in ctx.cap_names:
+                return T.canonical("cap", this)
             return T.var(name, "st")
     raise SpecError("unsupported construct in requirement: " + ast.dump(n))
